@@ -20,6 +20,7 @@ NCPU = os.cpu_count() or 4
 RUNS = {
     "default": {"quick": 480, "thorough": 20000},
     "C04": {"quick": 640, "thorough": 60000},
+    "C01": {"quick": 480, "thorough": 30000},
 }
 DEFAULT_SEED = 20260928
 WATCHDOG = {"quick": 900, "thorough": 3 * 3600}
@@ -160,6 +161,7 @@ def run_check(prop, tier):
         samples = []
         extra = {}
         required = set()
+        all_replays = []
         for r in results:
             states.update(r.get("states") or [])
             s = r.get("stats") or {}
@@ -171,6 +173,7 @@ def run_check(prop, tier):
             for k, v in (r.get("sig_counts") or {}).items():
                 sigcounts[k] = sigcounts.get(k, 0) + v
             for v in r.get("violations") or []:
+                all_replays.append(v.get("replay"))
                 cur = viols.get(v["sig"])
                 if cur is None or (v["steps"], v["run_seed"]) < (cur["steps"], cur["run_seed"]):
                     viols[v["sig"]] = v
@@ -180,6 +183,10 @@ def run_check(prop, tier):
             if len(samples) < 3:
                 samples += (r.get("samples") or [])[:1]
 
+        chosen = set(v.get("replay") for v in viols.values())
+        for rp in all_replays:
+            if rp and rp not in chosen and os.path.exists(rp):
+                os.remove(rp)
         new_viol, known_hit = [], []
         for sig, v in sorted(viols.items()):
             k = match_known(known, prop, sig)
